@@ -169,10 +169,14 @@ Fixpoint find_store_by_param (p : string) (ss : list pstore) : option pstore :=
 (* ---------------------------------------------------------------------- *)
 (* Wrappers with a concrete meaning; every other wrapper name is an oracle. *)
 Definition wrap_single_tuple (v : value) : value :=
-  (* if isinstance(v, tuple) and isinstance(v[0], int): [v]  (string in slot 1
-     for joint_unimodalities) else v *)
+  (* if isinstance(v, tuple) and isinstance(v[0], int): [v] else v *)
   match v with
   | VTuple (VInt _ :: _) => VList [v]
+  | _ => v
+  end.
+Definition wrap_single_pair (v : value) : value :=
+  (* if isinstance(v, tuple) and len(v) == 2 and isinstance(v[1], str): [v] else v *)
+  match v with
   | VTuple [_; VStr _] => VList [v]
   | _ => v
   end.
@@ -189,6 +193,7 @@ Definition wrap_list (v : value) : value :=
   end.
 Definition known_wrapper (w : string) : option (value -> value) :=
   if String.eqb w "single_tuple_to_list" then Some wrap_single_tuple
+  else if String.eqb w "single_pair_to_list" then Some wrap_single_pair
   else if String.eqb w "float" then Some wrap_float
   else if String.eqb w "list" then Some wrap_list
   else None.
@@ -379,6 +384,38 @@ Definition roundtrip_okb (d : class_desc) : bool :=
   nodupb (emit_keys d) && nodupb (map ps_attr (c_stores d)) && nodupb (c_base_keys d) &&
   forallb (store_rt_okb d) (c_stores d) &&
   forallb (base_rt_okb d) (c_base_keys d).
+
+(* Converse well-formedness of the entries (needed for "the rebuilt object
+   reports an equal config" WITHOUT a visibility guard): every condition tested
+   by get_config is the attribute of a directly stored, always reported
+   parameter; an entry that reads the attribute of a "hidden" store (always
+   stored, reported under `if self.ca0`) is itself written under the same
+   condition. *)
+Definition emit_okb (d : class_desc) (e : emit) : bool :=
+  match em_cond e with
+  | None => true
+  | Some ca => match cond_param_of d ca with Some _ => true | None => false end
+  end &&
+  match em_src e with
+  | Attr a | Serialized a =>
+      match find_store_by_attr a (c_stores d) with
+      | None => true
+      | Some s =>
+          match ps_cond s, find_emit (ps_param s) (c_emits d) with
+          | None, Some e0 => match em_cond e0 with
+                             | None => true
+                             | Some ca0 => match em_cond e with
+                                           | Some ca => String.eqb ca ca0
+                                           | None => false
+                                           end
+                             end
+          | Some _, Some _ => true
+          | _, None => false
+          end
+      end
+  | _ => true
+  end.
+Definition emits_okb (d : class_desc) : bool := forallb (emit_okb d) (c_emits d).
 
 (* (parameter p, condition parameter c): p is always stored but reported only
    when c is true *)
